@@ -114,12 +114,15 @@ def run_codec(R, ctx):
             break
         seen += 1
         try:
-            line = obs[int(mm.split()[1]) - 1].split(" => ")[0]
+            ix = int(mm.split()[1]) - 1
+            line = obs[ix].split(" => ")[0]
+            # the engine holds every encoded proposal back while the next 4 lines are encoded (as raft holds Entry.Data): they belong to the input
+            follow = [o.split(" => ")[0] for o in obs[ix + 1:ix + 5]]
         except Exception:
-            line = ""
+            line, follow = "", []
         readable = " ".join(("nil" if t == "~" else t if t == "[]" else repr(core.unhx(t))[2:-1]) for t in line.split()[1:])
         R.violation("codec-%d" % seen, dict(
-            kind="impl-violates-spec", engine="codec", summary=mm[:600], lines=[line] if line else [], program=[line.split()[0] + " " + readable] if line else [],
+            kind="impl-violates-spec", engine="codec", summary=mm[:600], lines=([line] + follow) if line else [], program=[line.split()[0] + " " + readable] if line else [],
             explanation="the bytes the cluster path appends to the replicated log for this argument vector (or what json.Unmarshal reads back from them) "
                         "differ from the codec model, for which Props/C14.lean proves that the submitted vector comes back unchanged: either the "
                         "log alters the command, or the model no longer describes the wire format"))
@@ -147,7 +150,8 @@ def run(R, ctx):
     rule_codec = ("codec: argument vectors of 1-6 arguments from the binary alphabet (empty, spaces, CR/LF, NUL, 0xff, RESP fragments), UTF-8 edge cases "
                   "(every first-byte class, E0/ED/F0/F4 second-byte limits, truncated sequences, U+2028/9, surrogates), every single byte, random bytes of "
                   "every length 0..20 (all base64 padding cases) and longer, nil elements, the empty array, PUBLISH/SUBSCRIBE in every letter case; "
-                  "non-trivial = accepted by the filter and carrying an Args array. ")
+                  "the bytes of each proposal are held back, uncopied, while the next 4 proposals are encoded (raft keeps Entry.Data until the entry is applied) "
+                  "and only then reported and decoded; non-trivial = accepted by the filter and carrying an Args array. ")
     execsuite.run_exec_suite(
         R, ctx, name="cluster-path",
         gens=families.all_gens(),
